@@ -577,6 +577,7 @@ func Run(c *evid.Ctx) {
 	c.Cov["corpus_encodings"] = len(items)
 	c.Cov["corpus_kinds"] = len(kinds)
 	truncation(c, items)
+	netTruncation(c, items)
 	primitives(c)
 	unknownTags(c)
 	spawnHostile(c, items, 16)
